@@ -139,6 +139,7 @@ func runC12(c *Ctx, r *Rec) {
 	checkDiagnosticBuilders(c, r, "D1-diagnostic-cannot-fail")
 	checkIndexGuardAdmitsLength(c, r, "D1-guard-excludes-the-length", c.allFuncDecls("cdcn"))
 	checkGuardExcludesCapacity(c, r, "D1-guard-excludes-the-capacity", "cdcn")
+	checkEnumIndexedTables(c, r, "D1-table-covers-the-enumeration", "cdcn")
 
 	// ---- D2 unchecked assertions
 	nA := 0
